@@ -1810,3 +1810,70 @@ pub fn boundary_run_stream(variant: u64) -> Option<(Vec<u8>, Vec<u8>, String)> {
     w.pad(0);
     Some((w.out, plain, format!("boundary-run L={} D={} c={} m={} prefix={} high-literals={}", l, d, c, m, stored_prefix, high)))
 }
+
+/// "stored header phase" streams: a fixed-Huffman block whose length puts the following stored
+/// block's 3 header bits at each of the 8 bit phases (one of them ends exactly on a byte
+/// boundary, i.e. no padding bits at all), followed by a stored block whose LEN bytes alias its
+/// payload: payload[0] == LEN & 0xff and LEN >> 8 >= 255 - (LEN & 0xff), so that a reader that is
+/// one byte late still finds a consistent LEN/NLEN pair and enough data. The stored block is final
+/// or followed by an empty fixed block. 8 phases x 6 lengths x (alias | no alias) x (final | not).
+pub fn stored_phase_stream(variant: u64) -> Option<(Vec<u8>, Vec<u8>, String)> {
+    const LENS: [(u8, u8); 6] = [(0xff, 0x03), (0xfe, 0x01), (0x80, 0x7f), (0xf0, 0x10), (0xff, 0x00), (0x00, 0xff)];
+    if variant >= 8 * 6 * 2 * 2 * 4 {
+        return None;
+    }
+    let phase = (variant % 8) as usize;
+    let (lo, hi) = LENS[((variant / 8) % 6) as usize];
+    let alias = (variant / 48) % 2 == 0;
+    let is_final = (variant / 96) % 2 == 0;
+    let seed = variant / 192;
+    let mut mix = Mix::new(0x57AE ^ seed.wrapping_mul(0x9E37_79B9_7F4A_7C15) ^ variant);
+    let mut w = BitW::new();
+    let mut plain: Vec<u8> = vec![];
+    let (ll, dl) = fixed_lengths();
+    // fixed block: 3 + 8*n8 + 9*n9 + 7 bits; n9 = phase nine-bit literals shift the phase
+    w.put(0, 1);
+    w.put(1, 2);
+    let mut toks: Vec<Tok> = vec![];
+    for _ in 0..mix.range(1, 40) {
+        toks.push(Tok::Lit(mix.below(144) as u8));
+    }
+    for _ in 0..phase {
+        toks.push(Tok::Lit(144 + mix.below(112) as u8));
+    }
+    for t in &toks {
+        if let Tok::Lit(b) = t {
+            plain.push(*b);
+        }
+    }
+    emit_tokens(&mut w, &toks, &ll, &dl);
+    // stored block
+    let len = ((hi as usize) << 8) | lo as usize;
+    w.put(is_final as u32, 1);
+    w.put(0, 2);
+    let phase_bits = w.bit_offset();
+    w.pad(if mix.chance(30) { mix.u8() } else { 0 });
+    w.put(len as u32, 16);
+    w.put(!(len as u32) & 0xffff, 16);
+    let mut payload: Vec<u8> = (0..len).map(|_| mix.u8()).collect();
+    if len > 0 {
+        if alias {
+            payload[0] = lo;
+        } else if payload[0] == lo {
+            payload[0] = lo.wrapping_add(1);
+        }
+    }
+    w.bytes(&payload);
+    plain.extend_from_slice(&payload);
+    if !is_final {
+        w.put(1, 1);
+        w.put(1, 2);
+        emit_tokens(&mut w, &[], &ll, &dl);
+        w.pad(0);
+    }
+    Some((
+        w.out,
+        plain,
+        format!("stored-phase header-ends-at-bit={} LEN={:#06x} alias={} final={}", phase_bits, len, alias, is_final),
+    ))
+}
